@@ -13,7 +13,7 @@ theorem Abs.lrun_of_not_reduce {G : Grammar} {A : Auto} {a s : Nat} {L : List Na
 section
 variable {G : Grammar} {nTerms nRules : Nat} {T : Tables} {cert : Array (List Item)}
 
-theorem mem_keysOfRow (hc : CheckOK G nTerms nRules T cert) {s a : Nat} {act : Act}
+theorem mem_keysOfRow (hc : SafeOK G nTerms nRules T cert) {s a : Nat} {act : Act}
     (h : (autoOf T cert).action s a = some act) : a ∈ keysOfRow T.actions s := by
   obtain ⟨hs, v, hf, _⟩ := action_eq h
   obtain ⟨row, hrow, _, _⟩ := (hc.states s hs).arow
@@ -21,7 +21,7 @@ theorem mem_keysOfRow (hc : CheckOK G nTerms nRules T cert) {s a : Nat} {act : A
   simp only [keysOfRow, hrow, Option.getD_some, List.mem_map]
   exact ⟨_, hm, by simp⟩
 
-theorem mem_targetsOf (hc : CheckOK G nTerms nRules T cert) {q : Nat} {X : Sym} {s : Nat}
+theorem mem_targetsOf (hc : SafeOK G nTerms nRules T cert) {q : Nat} {X : Sym} {s : Nat}
     (htr : trans (autoOf T cert) q X = some s) : q < cert.size ∧ s ∈ targetsOf T q := by
   cases X with
   | t x =>
@@ -51,7 +51,7 @@ theorem mem_targetsOf (hc : CheckOK G nTerms nRules T cert) {q : Nat} {X : Sym} 
     simp only [targetsOf, hrow, Option.getD_some, List.mem_append, List.mem_map]
     exact Or.inr ⟨_, hm, hto⟩
 
-theorem termB_spec (hc : CheckOK G nTerms nRules T cert) (h : termB G T cert = true) :
+theorem termB_spec (hc : SafeOK G nTerms nRules T cert) (h : termB G T cert = true) :
     Abs.LocalTerm G (autoOf T cert) (termFuel G cert) := by
   simp only [termB, Bool.and_eq_true, List.all_eq_true, List.mem_range] at h
   obtain ⟨h0, hq⟩ := h
@@ -69,11 +69,17 @@ theorem termB_spec (hc : CheckOK G nTerms nRules T cert) (h : termB G T cert = t
 
 /-- **Termination for validated tables**: if `check` and `termB` pass, the table-driven machine
 finishes (accepts or fails) on every token sequence. -/
+theorem tables_terminate_safe (hc : checkSafe G nTerms nRules T cert = .ok ())
+    (ht : termB G T cert = true) (w : List Nat) :
+    ∃ n, Abs.run G (autoOf T cert) n (Abs.init w) ≠ .timeout :=
+  have hc' := checkSafeB_spec (checkSafe_ok_iff.mp hc)
+  Abs.terminates (safe_of_safeOK hc') (termB_spec hc' ht) w
+
 theorem tables_terminate (hc : check G nTerms nRules T cert = .ok ())
     (ht : termB G T cert = true) (w : List Nat) :
     ∃ n, Abs.run G (autoOf T cert) n (Abs.init w) ≠ .timeout :=
-  have hc' := checkB_spec (check_ok_iff.mp hc)
-  Abs.terminates (safe_of_checkOK hc') (termB_spec hc' ht) w
+  have hc' := (checkB_spec (check_ok_iff.mp hc)).toSafeOK
+  Abs.terminates (safe_of_safeOK hc') (termB_spec hc' ht) w
 
 end
 end Lox.LR
